@@ -62,13 +62,13 @@ Section BinarySearch.
           -- assumption.
           -- intros k Hk1 Hk2. pose proof (get_mono m k ltac:(lia) Hk2). lia.
           -- unfold exit_rel. destruct (Nat.le_gt_cases first (m - 1)); [left; assumption|].
-             right. repeat split; try lia. left. lia.
+             right. repeat split; lia.
       + apply Nat.ltb_ge in E1. destruct (get m <? x) eqn:E2.
         * apply Nat.ltb_lt in E2. apply IH; try lia.
           -- intros k Hk. pose proof (get_mono k m ltac:(lia) ltac:(lia)). lia.
           -- assumption.
           -- unfold exit_rel. destruct (Nat.le_gt_cases (m + 1) last); [left; assumption|].
-             right. repeat split; try lia. right. lia.
+             right. repeat split; lia.
         * apply Nat.ltb_ge in E2. eexists; split; [reflexivity|]. unfold bs_post. repeat split; lia.
     - apply Nat.leb_gt in Efl. eexists; split; [reflexivity|]. unfold bs_post.
       destruct Hex as [Hex|(Hc & Hcur & Hcase)]; [lia|]. subst cur.
@@ -284,9 +284,9 @@ Section Lists.
     unfold executionContextPredicate, documentPredicate, is_doc, key. simpl.
     rewrite Nat.eqb_refl. simpl negb. cbv iota.
     destruct n as [|sn n].
-    - symmetry. apply Nat.ltb_ge. unfold index at 2. simpl. lia.
+    - symmetry. apply Nat.ltb_ge. change (index (wtree W d) []) with 0. lia.
     - destruct c as [|sc c].
-      + symmetry. apply Nat.ltb_lt. unfold index at 1. simpl.
+      + symmetry. apply Nat.ltb_lt. change (index (wtree W d) []) with 0.
         pose proof (index_nonroot_pos (wtree W d) (sn :: n) ltac:(discriminate)). lia.
       + unfold isNodeAfter, isIndexed. simpl. rewrite Hni.
         apply struct_order_eq_index_order_lemma; try assumption. left. discriminate.
@@ -302,8 +302,7 @@ Section Lists.
     addNodeInDocOrder W l n = Some (sinsert W n l).
   Proof.
     intros l n Hl Hn Hs. destruct l as [|f l']; [reflexivity|].
-    set (l := f :: l') in *. unfold addNodeInDocOrder. fold l.
-    change (match l with [] => Some [n] | theFirst :: _ => ?X theFirst end) with (X f).
+    unfold addNodeInDocOrder. cbv beta iota. set (l := f :: l') in *.
     assert (HlastIn : In (last l dummy) l) by apply last_in.
     destruct (lnode_eqb (last l dummy) n) eqn:Elast.
     - apply lnode_eqb_eq in Elast. rewrite <- Elast at 2. rewrite sinsert_dup; [reflexivity|assumption|assumption].
